@@ -9,6 +9,7 @@ changed tree is always re-extracted.
 """
 import hashlib
 import json
+import re
 import os
 import shutil
 import subprocess
@@ -257,14 +258,54 @@ class Facts:
 _loaded = {}
 
 
+API_TYPES = [
+    ("libxcp", "Config", "libxcp::config::Config"), ("libxcp", "Operation", "libxcp::operations::Operation"),
+    ("libxcp", "CopyHandle", "libxcp::operations::CopyHandle"), ("libxcp", "StatusUpdate", "libxcp::feedback::StatusUpdate"),
+    ("libxcp", "XcpError", "libxcp::errors::XcpError"), ("libxcp", "Reflink", "libxcp::config::Reflink"),
+    ("libxcp", "Backup", "libxcp::config::Backup"), ("xcp", "Opts", "xcp::options::Opts"),
+    ("libfs", "Extent", "libfs::Extent"), ("libfs", "FileType", "libfs::FileType"),
+]
+API_TRAITS = [("libxcp", "StatusUpdater", "libxcp::feedback::StatusUpdater"), ("libxcp", "CopyDriver", "libxcp::drivers::CopyDriver")]
+
+
+def _api_aliases(crate_jsons):
+    out = []
+    for j in crate_jsons:
+        cr = j.get("crate")
+        paths = [a["path"] for a in j.get("adts", [])]
+        for c_, name, canon in API_TYPES:
+            if c_ != cr or canon in paths:
+                continue
+            cands = [p_ for p_ in paths if p_.startswith(cr + "::") and p_.split("::")[-1] == name]
+            if len(cands) == 1:
+                out.append((cands[0], canon))
+        traits = set(i.get("trait") for i in j.get("impls", []) if i.get("trait"))
+        for c_, name, canon in API_TRAITS:
+            if c_ != cr or canon in traits:
+                continue
+            cands = [t_ for t_ in traits if t_.startswith(cr + "::") and t_.split("::")[-1] == name]
+            if len(cands) == 1:
+                out.append((cands[0], canon))
+    # longest first, so that a path is not rewritten through a prefix of another
+    return sorted(set(out), key=lambda x: -len(x[0]))
+
+
 def load(cfg="A"):
     if cfg in _loaded:
         return _loaded[cfg]
     d = extract(cfg)
     crates = {}
+    texts = {}
     for e in CONFIGS[cfg]["expect"]:
         with open(os.path.join(d, e + ".json")) as f:
-            j = json.load(f)
+            texts[e] = f.read()
+    # canonical paths of the public API types the rules are written against: a type that keeps its name but is
+    # moved to another (private) module and re-exported is the same type
+    alias = _api_aliases([json.loads(t) for t in texts.values()])
+    for e, t in texts.items():
+        for cand, canon in alias:
+            t = re.sub(re.escape(cand) + r"(?![A-Za-z0-9_])", canon, t)
+        j = json.loads(t)
         crates[j["crate"]] = j
     fx = Facts(cfg, crates)
     with open(os.path.join(d, "OK")) as f:
